@@ -69,3 +69,6 @@ N("c12-n-deliver-nested", "C12", A, "CancelScope._deliver_cancellation",
 M("c12-skip-stops-at-cancelled-receiver", "C12", MEM, "MemoryObjectSendStream.send_nowait",
   "            if not receiver.task_info.has_pending_cancellation():\n                receiver.item = item\n                receive_event.set()\n                return\n",
   "            if receiver.task_info.has_pending_cancellation():\n                break\n\n            receiver.item = item\n            receive_event.set()\n            return\n", ["R12-c"])
+
+M("c12-anext-swallows-errors", "C12", "abc/_streams.py", "UnreliableObjectReceiveStream.__anext__", "        except EndOfStream:", "        except Exception:", ["R12-i"])
+M("c12-anext-drops-item", "C12", "abc/_streams.py", "UnreliableObjectReceiveStream.__anext__", "            return await self.receive()", "            await self.receive()\n            return await self.receive()", ["R12-i"])
